@@ -870,6 +870,26 @@ def g_observe(cuqi, meta):
                     d = G(mean, **{form: (lambda s_: s_ * half)}, geometry=n)(s_=2.0)
                 elif via == "logd_mean":
                     d = G(None, **{form: val}, geometry=n)
+                elif via == "siblings":
+                    # several instances conditioned from one conditional Gaussian, all created before the evaluated one is used
+                    sb = meta["siblings"]
+                    basev = g_param(dict(meta, P=sb["base_P"]))
+                    if isinstance(basev, list):
+                        basev = np.array(basev, dtype=float)
+                    if sb["param"] == "mean":
+                        parent = G(None, **{form: val}, geometry=n) if sb["style"] == "none" else G(lambda m_: m_, **{form: val}, geometry=n)
+                        mk = lambda v: parent(mean=np.array(v, dtype=float)) if sb["style"] == "none" else parent(m_=np.array(v, dtype=float))
+                    elif sb["style"] == "none":          # only cov can be left open
+                        parent = G(mean, cov=None, geometry=n)
+                        mk = lambda v: parent(cov=v * basev)
+                    else:
+                        parent = G(mean, **{form: (lambda s_: s_ * basev)}, geometry=n)
+                        mk = lambda v: parent(s_=v)
+                    sibs = [mk(v) for v in sb["values"]]
+                    for k, o in enumerate(sibs):      # the later siblings are evaluated first
+                        if k > sb["index"]:
+                            o.logpdf(np.array(meta["x"], dtype=float))
+                    d = sibs[sb["index"]]
                 else:
                     raise ValueError(via)
             except (ValueError, TypeError, NotImplementedError, np.linalg.LinAlgError) as e:
@@ -1453,6 +1473,44 @@ def gaussian_lessons_cases(ctx, cuqi, state, cases, stats):
                 stats["gaussian"] = stats.get("gaussian", 0) + 1
 
 
+def gaussian_sibling_cases(ctx, cuqi, state, cases, stats):
+    """branching conditioning histories for the Gaussian: siblings conditioned from one conditional Gaussian (mean left open / callable;
+    cov left open; any of the four matrix parameters as a callable s -> s * M), all alive, evaluated after later siblings"""
+    rng = ctx.rng
+    pt = lambda n: [rng.randint(-16, 16) / 8 for _ in range(n)]
+    counter = 0
+    for n in (2, 3):
+        for form in GFORMS:
+            for gk in ("scalar", "vector", "densefull"):
+                for param in ("mean", "matrix"):
+                    counter += 1
+                    style = "none" if (param == "mean" and counter % 2) or (param == "matrix" and form == "cov" and counter % 2) else "callable"
+                    if gk == "densefull":
+                        U = rand_unit_lower(rng, n)
+                        U[n - 1][0] = rng.choice([-1, 1])
+                        D = [rng.choice([0.5, 1.0, 2.0]) for _ in range(n)]
+                        L = [[Fraction(U[i][k]) * frac(D[k]) for k in range(n)] for i in range(n)]
+                        Ui = inv_unit_lower(U)
+                        Li = [[Ui[i][k] / frac(D[i]) for k in range(n)] for i in range(n)]
+                        Mx = {"cov": fr_mm(L, fr_T(L)), "prec": fr_mm(fr_T(Li), Li), "sqrtcov": fr_mm(L, fr_T(L)), "sqrtprec": Li}[form]
+                        base = [[float(v) for v in r] for r in Mx]
+                    else:
+                        sd = [rng.choice([0.5, 1.0, 2.0, 4.0]) for _ in range(1 if gk == "scalar" else n)]
+                        base = [{"cov": v * v, "prec": 1 / (v * v), "sqrtcov": v, "sqrtprec": 1 / v}[form] for v in sd]
+                    if param == "mean":
+                        values = [pt(n) for _ in range(3)]
+                    else:
+                        values = rng.sample([0.5, 2.0, 4.0, 0.25], 3)
+                    mean0 = pt(n)
+                    for k in (0, 1):
+                        scale = 1.0 if param == "mean" else values[k]
+                        P = [[v * scale for v in r] for r in base] if gk == "densefull" else [v * scale for v in base]
+                        meta = {"kind": "gaussian", "form": form, "gkind": gk, "dim": n, "mean": values[k] if param == "mean" else mean0, "via": "siblings",
+                                "method": ["logpdf", "logd"][k], "P": P, "x": pt(n), "storage": "float" if gk == "scalar" else "array",
+                                "siblings": {"param": param, "style": style, "values": values, "index": k, "base_P": base}}
+                        g_case(ctx, cuqi, state, cases, stats, meta, "Gaussian/%s/%s/sibling-of-conditional/%s-%s" % (form, gk, param, style))
+
+
 def gaussian_switch_cases(ctx, cuqi, state, cases, stats):
     """(a) every storage kind on the SPARSE side of the switch at small dims (threshold lowered through cuqi.config.MIN_DIM_SPARSE),
     (b) rank-deficient full matrices on both sides, (c) sqrtprec as a scipy LinearOperator"""
@@ -1942,6 +2000,23 @@ def mrf_build(cuqi, meta):
         try:
             if "max_dim_inv" in meta or "max_dim_inv_exact_side" in meta:
                 cuqi.config.MAX_DIM_INV = meta.get("max_dim_inv", meta.get("max_dim_inv_exact_side"))
+            if "siblings" in meta:
+                sb = meta["siblings"]
+                mk_loc = lambda v: float(v[0]) if len(v) == 1 else np.array(v, dtype=float)
+                a_loc = None if sb["param"] == "loc" else loc
+                a_par = None if sb["param"] == "par" else meta["par"]
+                if fam == "GMRF":
+                    parent = cuqi.distribution.GMRF(a_loc, a_par, meta["bc"], meta["order"], geometry=geom)
+                    key = "mean" if sb["param"] == "loc" else "prec"
+                else:
+                    parent = getattr(cuqi.distribution, fam)(a_loc, a_par, meta["bc"], geometry=geom)
+                    key = "location" if sb["param"] == "loc" else "scale"
+                sibs = [parent(**{key: (mk_loc(v) if sb["param"] == "loc" else v)}) for v in sb["values"]]
+                xx = np.array(meta["x"], dtype=float)
+                for k, o in enumerate(sibs):
+                    if k > sb["index"]:
+                        o.logpdf(xx)
+                return sibs[sb["index"]]
             if fam == "GMRF":
                 return cuqi.distribution.GMRF(loc, par, meta["bc"], meta["order"], geometry=geom)
             return getattr(cuqi.distribution, fam)(loc, meta["par"], meta["bc"], geometry=geom)
@@ -2103,6 +2178,32 @@ def mrf_threshold_cases(ctx, cuqi, state, cases, stats):
                     else:
                         meta["max_dim_inv_exact_side"] = T
                     mrf_case(ctx, cuqi, state, cases, stats, meta, "GMRF/%s/order%d/%s/logpdf/MAX_DIM_INV=dim%+d" % (bcn, order, "2d" if twod else "1d", T - dim))
+
+
+def mrf_sibling_cases(ctx, cuqi, state, cases, stats):
+    """branching conditioning histories for GMRF / LMRF / CMRF: the location (mean) or the precision / scale left open, several
+    conditioned instances alive, each evaluated after its later siblings"""
+    rng = ctx.rng
+    counter = 0
+    for fam in ("GMRF", "LMRF", "CMRF"):
+        for bcn in BCS:
+            for param in ("loc", "par"):
+                counter += 1
+                twod = counter % 3 == 0
+                N = 3 if twod else 4
+                dim = N * N if twod else N
+                order = [1, 2, 0][counter % 3] if fam == "GMRF" else 1
+                if param == "loc":
+                    values = [[rng.randint(-8, 8) / 4 for _ in range(dim)] for _ in range(3)]
+                else:
+                    values = rng.sample([0.5, 1.5, 2.0, 0.25, 3.0], 3)
+                loc0, par0 = [rng.randint(-8, 8) / 4], rng.randint(2, 24) / 8
+                for k in (0, 1):
+                    meta = {"kind": "mrf", "family": fam, "bc": bcn, "order": order, "twod": twod, "N": N,
+                            "loc": values[k] if param == "loc" else loc0, "par": values[k] if param == "par" else par0, "par_iface": "float",
+                            "geom": "tuple" if twod else "int", "method": ["logpdf", "logd"][k], "x": [rng.randint(-8, 8) / 4 for _ in range(dim)],
+                            "siblings": {"param": param, "values": values, "index": k}}
+                    mrf_case(ctx, cuqi, state, cases, stats, meta, "%s/%s/order%d/%s/sibling-of-conditional/%s" % (fam, bcn, order, "2d" if twod else "1d", param))
 
 
 def mrf_magnitude_cases(ctx, cuqi, state, cases, stats):
@@ -2271,9 +2372,11 @@ def run(ctx):
     gaussian_switch_cases(ctx, cuqi, state, cases, stats)
     gaussian_signed_factor_cases(ctx, cuqi, state, cases, stats)
     gaussian_lessons_cases(ctx, cuqi, state, cases, stats)
+    gaussian_sibling_cases(ctx, cuqi, state, cases, stats)
     mrf_cases(ctx, cuqi, state, cases, stats)
     mrf_magnitude_cases(ctx, cuqi, state, cases, stats)
     mrf_threshold_cases(ctx, cuqi, state, cases, stats)
+    mrf_sibling_cases(ctx, cuqi, state, cases, stats)
     scalar_magnitude_cases(ctx, cuqi, state, cases, stats)
     scalar_cdf_cases(ctx, cuqi, state, cases, stats)
     scalar_falsy_cases(ctx, cuqi, state, cases, stats)
